@@ -405,7 +405,10 @@ def rewrite_method_chain(text, fn_name, methods):
             continue
         rs = _receiver_start(masked, dot)
         recv = text[rs:dot].strip()
-        new = 'crate::%s(%s)' % (fn_name, ', '.join([recv] + args))
+        if fn_name.startswith('&'):
+            new = 'crate::%s(%s)' % (fn_name[1:], ', '.join(['&(' + recv + ')'] + args))   # method takes &self: pass the receiver by reference
+        else:
+            new = 'crate::%s(%s)' % (fn_name, ', '.join([recv] + args))
         text = text[:rs] + new + text[endpos:]
         c += 1
         start = rs + len(new)
